@@ -9,7 +9,7 @@ from .common import LEAN, REPO, write_if_changed
 sys.path.insert(0, str(Path(__file__).resolve().parent.parent))
 
 
-ALL = ("scopemap", "builtin", "envconfig", "checkapi", "skeletons", "alias", "registry", "columnprops", "scriptslots")
+ALL = ("scopemap", "builtin", "envconfig", "checkapi", "skeletons", "alias", "registry", "columnprops", "scriptslots", "inferstats")
 
 
 def regenerate(which=("scopemap",)) -> dict:
@@ -52,6 +52,9 @@ def regenerate(which=("scopemap",)) -> dict:
     if "scriptslots" in which:
         from extract import scriptslots
         write_if_changed(gen / "ScriptSlots.lean", scriptslots.render(REPO))
+    if "inferstats" in which:
+        from extract import inferstats
+        write_if_changed(gen / "InferStats.lean", inferstats.render(REPO))
     if "builtin" in which:
         from extract import builtin_checks
         write_if_changed(gen / "BuiltinChecks.lean", builtin_checks.render(REPO))
